@@ -490,7 +490,9 @@ def cli_session(year, requested, path, answer, sched, cli, supplied0, year_forms
     d = scratch_dir()
     m = mon.Monitor(supplied=supplied0, dup_demand=dup)
     rec = seams.Recorder(budget=budget, sched_seed=sched[0], period=sched[1], monitor=m)
-    garble = cli.get('garble') or {}
+    garble = cli.get('garble')
+    if garble is None:
+        garble = {}
     interrupt = cli.get('interrupt')
 
     def script(k, name):
